@@ -2004,6 +2004,10 @@ func (r *Repository) ResolveRevision(in plumbing.Revision) (*plumbing.Hash, erro
 	return &commit.Hash, nil
 }
 
+// minimumAbbrevLength is the shortest hex prefix accepted as an abbreviated
+// object name; it matches git's MINIMUM_ABBREV.
+const minimumAbbrevLength = 4
+
 // resolveHashPrefix returns a list of potential hashes that the given string
 // is a prefix of. It quietly swallows errors, returning nil.
 func (r *Repository) resolveHashPrefix(hashStr string) []plumbing.Hash {
@@ -2012,6 +2016,11 @@ func (r *Repository) resolveHashPrefix(hashStr string) []plumbing.Hash {
 	// for partial hashes since they will become zero-filled.
 
 	if hashStr == "" {
+		return nil
+	}
+	// Like git (MINIMUM_ABBREV), never treat fewer than 4 hex digits as an
+	// abbreviated object name.
+	if len(hashStr) < minimumAbbrevLength {
 		return nil
 	}
 	if len(hashStr) == plumbing.ZeroHash.HexSize() {
